@@ -861,3 +861,200 @@ mod tests {
         }
     }
 }
+
+/// Verification hooks: thin public wrappers, no logic of their own.
+#[cfg(eigerco_lumina_verif)]
+#[allow(missing_docs)]
+pub mod verif_hooks {
+    use std::sync::Arc;
+    use std::task::{Context, Poll};
+
+    use celestia_proto::p2p::pb::{HeaderRequest, HeaderResponse};
+    use celestia_types::ExtendedHeader;
+    use futures::{AsyncRead, AsyncWrite};
+    use libp2p::request_response::{Codec, OutboundFailure};
+    use libp2p::{PeerId, StreamProtocol};
+    use tokio::sync::oneshot;
+
+    use super::client::{HeaderExClientHandler, RequestSender};
+    use super::server::{HeaderExServerHandler, ResponseSender};
+    use super::{Event, HeaderCodec, HeaderExError};
+    use crate::p2p::P2pError;
+    use crate::store::Store;
+    use crate::verif::VPeerTracker;
+
+    #[derive(Debug, Clone, Copy, PartialEq, Eq)]
+    pub enum VEvent {
+        SchedulePendingRequests,
+        NeedTrustedPeers,
+        NeedArchivalPeers,
+    }
+
+    /// `RequestSender` that only records what was sent.
+    #[derive(Default)]
+    pub struct MockSender {
+        next_id: u64,
+        sent: Vec<(u64, PeerId, HeaderRequest)>,
+    }
+
+    impl RequestSender for MockSender {
+        type RequestId = u64;
+
+        fn send_request(&mut self, peer: &PeerId, request: HeaderRequest) -> u64 {
+            let id = self.next_id;
+            self.next_id += 1;
+            self.sent.push((id, *peer, request));
+            id
+        }
+    }
+
+    pub struct VHeaderExClient {
+        handler: HeaderExClientHandler<MockSender>,
+        sender: MockSender,
+    }
+
+    impl VHeaderExClient {
+        pub fn new() -> Self {
+            VHeaderExClient {
+                handler: HeaderExClientHandler::new(),
+                sender: MockSender::default(),
+            }
+        }
+
+        pub fn on_send_request(
+            &mut self,
+            request: HeaderRequest,
+            respond_to: oneshot::Sender<Result<Vec<ExtendedHeader>, P2pError>>,
+        ) {
+            self.handler.on_send_request(request, respond_to)
+        }
+
+        pub fn schedule_pending_requests(&mut self, peer_tracker: &VPeerTracker) {
+            self.handler
+                .schedule_pending_requests(&mut self.sender, &peer_tracker.0)
+        }
+
+        /// Drains the log of `(request id, peer, request)` sends.
+        pub fn take_sent(&mut self) -> Vec<(u64, PeerId, HeaderRequest)> {
+            std::mem::take(&mut self.sender.sent)
+        }
+
+        pub fn on_response_received(
+            &mut self,
+            peer: PeerId,
+            request_id: u64,
+            responses: Vec<HeaderResponse>,
+        ) {
+            self.handler.on_response_received(peer, request_id, responses)
+        }
+
+        pub fn on_failure(&mut self, peer: PeerId, request_id: u64, error: OutboundFailure) {
+            self.handler.on_failure(peer, request_id, error)
+        }
+
+        pub fn on_stop(&mut self) {
+            self.handler.on_stop()
+        }
+
+        pub fn poll(&mut self, cx: &mut Context<'_>) -> Poll<VEvent> {
+            self.handler.poll(cx).map(|ev| match ev {
+                Event::SchedulePendingRequests => VEvent::SchedulePendingRequests,
+                Event::NeedTrustedPeers => VEvent::NeedTrustedPeers,
+                Event::NeedArchivalPeers => VEvent::NeedArchivalPeers,
+            })
+        }
+    }
+
+    pub async fn decode_and_verify_responses(
+        request: &HeaderRequest,
+        responses: &[HeaderResponse],
+    ) -> Result<Vec<ExtendedHeader>, HeaderExError> {
+        super::client::verif_decode_and_verify_responses(request, responses).await
+    }
+
+    /// `ResponseSender` that only records what was sent; the channel is a caller-chosen tag.
+    #[derive(Default)]
+    pub struct MockResponder {
+        sent: Vec<(u64, Vec<HeaderResponse>)>,
+    }
+
+    impl ResponseSender for MockResponder {
+        type Channel = u64;
+
+        fn send_response(&mut self, channel: u64, response: Vec<HeaderResponse>) {
+            self.sent.push((channel, response));
+        }
+    }
+
+    pub struct VHeaderExServer<S: Store + 'static> {
+        handler: HeaderExServerHandler<S, MockResponder>,
+        responder: MockResponder,
+    }
+
+    impl<S: Store + 'static> VHeaderExServer<S> {
+        pub fn new(store: Arc<S>) -> Self {
+            VHeaderExServer {
+                handler: HeaderExServerHandler::new(store),
+                responder: MockResponder::default(),
+            }
+        }
+
+        pub fn on_request_received(&mut self, peer: PeerId, request: HeaderRequest, tag: u64) {
+            self.handler
+                .on_request_received(peer, tag, request, &mut self.responder, tag)
+        }
+
+        pub fn on_stop(&mut self) {
+            self.handler.on_stop()
+        }
+
+        pub fn poll(&mut self, cx: &mut Context<'_>) -> Poll<()> {
+            self.handler.poll(cx, &mut self.responder)
+        }
+
+        /// Drains the log of `(tag, responses)` sends.
+        pub fn take_responses(&mut self) -> Vec<(u64, Vec<HeaderResponse>)> {
+            std::mem::take(&mut self.responder.sent)
+        }
+    }
+
+    /// `HeaderCodec` wire framing.
+    pub struct VHeaderCodec;
+
+    impl VHeaderCodec {
+        fn protocol() -> StreamProtocol {
+            StreamProtocol::new("/verif/header-ex")
+        }
+
+        pub async fn read_request<T>(io: &mut T) -> std::io::Result<HeaderRequest>
+        where
+            T: AsyncRead + Unpin + Send,
+        {
+            HeaderCodec.read_request(&Self::protocol(), io).await
+        }
+
+        pub async fn read_response<T>(io: &mut T) -> std::io::Result<Vec<HeaderResponse>>
+        where
+            T: AsyncRead + Unpin + Send,
+        {
+            HeaderCodec.read_response(&Self::protocol(), io).await
+        }
+
+        pub async fn write_request<T>(io: &mut T, req: HeaderRequest) -> std::io::Result<()>
+        where
+            T: AsyncWrite + Unpin + Send,
+        {
+            HeaderCodec.write_request(&Self::protocol(), io, req).await
+        }
+
+        pub async fn write_response<T>(
+            io: &mut T,
+            resps: Vec<HeaderResponse>,
+        ) -> std::io::Result<()>
+        where
+            T: AsyncWrite + Unpin + Send,
+        {
+            HeaderCodec.write_response(&Self::protocol(), io, resps).await
+        }
+    }
+}
